@@ -101,6 +101,12 @@ def build(sess, name="x"):
                 else:
                     cr = "%d %d %s %s" % (creds.pid, creds.cid, hx(creds.ticket.session_key), hx(creds.ticket.internal))
                 add("connect %s %d 1 10 %d %d %d %s" % (C, tk, rc[0], rc[1], rc[2], cr), ("op", "c", tk))
+            elif op == "connected" and side == "c" and not any(x[0] == "app" and x[3] in ("send", "sendu", "preset", "close", "disconnect", "closed", "done", "raised")
+                                                                 for x in sess.netlog[:sess.netlog.index(e)]):
+                # the client's handshake() has returned: are the two MODEL endpoints in the state the end-to-end theorems start from?
+                # (`establishedB`, both directions, every substream; the line changes nothing; only when no application call came before -
+                # a server handler that greets at once has already put data on the wire, which `Established` excludes)
+                add("est %s %s %s" % (C, S, srv_key), ("probe", "c", tk))
             elif op in ("send", "sendu"):
                 ep, conn = (C, "c") if side == "c" else (S, srv_key)
                 # an application call at instant t runs after the timers due at t (it is usually their consequence:
@@ -147,6 +153,9 @@ def model_stream(lines, kinds, outs):
     other = {"c": [], "s": []}
     errs = []
     for line, kind, out in zip(lines, kinds, outs):
+        if kind[0] == "probe":
+            other.setdefault("probe", []).append((kind[2], out))
+            continue
         if kind[0] in ("setup", "setup2"):
             if out != "ok":
                 errs.append((line, out))
